@@ -436,8 +436,6 @@ def plan(tier, seed):
                 size = size_of(cls_name, L, coprime)
                 if not fam.SUPPORTED[cls_name](*size):
                     continue
-                if cls_name == 'Color666PlanarCode' and coprime:
-                    continue       # L_y is ignored by the class
                 if cls_name == 'Color666ToricCode' and coprime:
                     continue       # C01 known finding (rectangular)
                 tasks.append({'kind': 'data', 'cls': cls_name, 'L': L,
